@@ -366,6 +366,27 @@ def closure(pool_by_name: dict[str, dict[str, Any]], start: dict[str, Any]) -> s
 	return seen
 
 
+def has_cycle(pool: list[dict[str, Any]]) -> bool:
+	"""Import cycle among the pool modules. tranp does not support cyclic imports (a load error in fresh and session alike);
+	the model covers the plain cases, but since a383b4a the identity of a module in the middle of being loaded is computed
+	from file hashes of its direct imports, which raises for a missing file — that corner is left to the real-code search."""
+	graph = {m['name']: [d for d, _ in m['imports']] for m in pool}
+	state: dict[str, int] = {}
+
+	def visit(x: str) -> bool:
+		if state.get(x) == 1:
+			return True
+		if state.get(x) == 2 or x not in graph:
+			return False
+		state[x] = 1
+		if any(visit(d) for d in graph[x]):
+			return True
+		state[x] = 2
+		return False
+
+	return any(visit(x) for x in graph)
+
+
 def gen_ops(rng: random.Random, pool: list[dict[str, Any]], n: int, p_bad: float, prelude_names: list[str]) -> list[list[Any]]:
 	names = [m['name'] for m in pool]
 	ops: list[list[Any]] = []
@@ -847,7 +868,9 @@ def run_checked(ctx: Ctx, before: str | None) -> int:
 		valid = gen_cases(ctx, 'session', ctx.scale(10, 60), ctx.scale(12, 40), 0.15)
 		faulty = gen_cases(ctx, 'session-faulty', ctx.scale(6, 40), ctx.scale(12, 40), 1.0)
 	with ctx.timed('correspondence'):
-		streams = [stream_session(ctx, 'session', [*corpus, *valid]), stream_session(ctx, 'session-faulty', faulty)]
+		# pools with an import cycle stay in the real-code search (session == fresh must hold there too), not in the tie
+		streams = [stream_session(ctx, 'session', [c for c in [*corpus, *valid] if not has_cycle(c['pool'])]),
+			stream_session(ctx, 'session-faulty', [c for c in faulty if not has_cycle(c['pool'])])]
 	with ctx.timed('search'):
 		fresh_cases = [*corpus, *valid[:ctx.scale(4, 20)], *faulty[:ctx.scale(3, 12)]]
 		searches = [
